@@ -651,3 +651,27 @@ fn c10_q_mutex_try_matrix_n5() {
   kani::cover!(locks >= 2, "locked twice");
   std::mem::forget(g);
 }
+
+/// C10: a reader holds the lock, a writer future queues (which gates new readers), a reader future
+/// queues behind it, the writer future is cancelled before it was ever woken, then the last read guard
+/// is dropped: the queued reader must be woken (and acquires).
+#[kani::proof]
+#[kani::unwind(5)]
+fn c10_t_rw_cancelled_writer_then_reader_woken() {
+  let l = HybridRwLock::new(0u8);
+  let held = l.try_read();
+  assert!(held.is_some(), "C10: try_read failed on a free lock");
+  let mut wf = Some(mk_write(&l));
+  assert!(poll_slot(&mut wf, 0).is_pending(), "C10: write_async acquired while a read guard exists");
+  let mut rf = Some(mk_read(&l));
+  assert!(poll_slot(&mut rf, 1).is_pending(), "C10: read_async barged past a queued writer");
+  wf = None; // cancelled, never woken
+  drop(held);
+  assert!(wakes(1) >= 1, "C10: lock free, queued writer cancelled, queued reader never woken (lost wakeup)");
+  match poll_slot(&mut rf, 1) {
+    Poll::Ready(g) => std::mem::forget(g),
+    Poll::Pending => assert!(false, "C10: woken reader could not acquire a free lock"),
+  }
+  assert!(wakes(0) == 0, "C10: a cancelled writer future was woken");
+  std::mem::forget(rf);
+}
